@@ -23,6 +23,7 @@
 import IgrisModel.C10.Lemmas
 import IgrisModel.C10.LemmasZones
 import IgrisModel.C10.LemmasIter
+import IgrisModel.C10.LemmasPtr
 namespace Igris.C10
 
 /-! ## Fixed-block pools (pool_head / igris::pool / static_object_pool)
@@ -638,6 +639,83 @@ theorem ipool_default_constructed (ops : List IOp) (s : IState)
 default-constructed pool it divides by `_elemsz = 0` (trap) -/
 theorem ipool_sizeOrig_default_witness :
     IPool.default.cellsOrig = none ∧ IPool.default.cells = 0 ∧ (IPool.init 48 16).cellsOrig = some 3 := by decide
+
+/-! ## The heap at the level of the `nx` pointers (ModelPtr.lean)
+
+`PHeap` = `__brkval`, `__flp` and the two words `sz` / `nx` of every header in
+memory; `mallocP` / `freeP` / `reallocP` are the literal pointer stores of the C
+code, their loops walking `fp1 = fp1->nx` with fuel.  `FRep ph h`: same break,
+following `__flp` / `nx` visits exactly the nodes of the list `h.flp` in order with
+the recorded `sz` words and ends in NULL, and the `sz` word of every live header
+is the recorded size. -/
+
+/-- every pointer store of malloc keeps the linked structure equal to the
+address-ordered list of the model, and the same pointer is returned (for any
+fuel above the length of the list: the loop never runs out) -/
+theorem heap_ptr_malloc_refines (cfg : Cfg) (ok : CfgOK cfg) (ph : PHeap) (h : Heap) (n fuel : Nat)
+    (hr : Reach cfg h) (hp : FRep ph h) (hf : h.flp.length < fuel) :
+    (mallocP cfg ph n fuel).ret = (malloc cfg h n).ret ∧ FRep (mallocP cfg ph n fuel).h (malloc cfg h n).h :=
+  mallocP_refines cfg ph h n fuel (hr.inv ok) hp hf
+
+/-- the same for free of a live block: the ordered walk, both merges and the
+lowering of the break, as pointer stores, produce the list of the model -/
+theorem heap_ptr_free_refines (cfg : Cfg) (ok : CfgOK cfg) (ph : PHeap) (h : Heap) (p sz fuel : Nat) (r : Res)
+    (hr : Reach cfg h) (hp : FRep ph h) (hf : h.flp.length < fuel) (h8 : 8 ≤ p)
+    (hl : lookup (p - 8) h.live = some sz) (hfree : free h p = some r) : FRep (freeP ph p fuel).h r.h :=
+  freeP_refines cfg ph h p sz fuel r (hr.inv ok) hp hf h8 hl hfree
+
+/-- the same for realloc on all its paths (NULL, shrink-split + free of the tail,
+growth into the neighbour with / without split, in-place growth at the top, move) -/
+theorem heap_ptr_realloc_refines (cfg : Cfg) (ok : CfgOK cfg) (ph : PHeap) (h : Heap) (ptr : Option Nat)
+    (n fuel : Nat) (r : Res) (hr : Reach cfg h) (hp : FRep ph h) (hf : h.flp.length < fuel)
+    (hre : realloc cfg h ptr n = some r) :
+    (reallocP cfg ph ptr n fuel).ret = r.ret ∧ FRep (reallocP cfg ph ptr n fuel).h r.h :=
+  reallocP_refines cfg ok ph h ptr n fuel r (hr.inv ok) hp hf hre
+
+/-- whole histories: running the pointer-level routines from the initial heap
+(fuel `brk + 1` per call) always represents the state of the list model -/
+theorem heap_ptr_run_refines (cfg : Cfg) (ok : CfgOK cfg) (ops : List Op) (h : Heap)
+    (hrun : run cfg Heap.init ops = some h) : FRep (runP cfg PHeap.init ops) h :=
+  runP_refines cfg ok ops h hrun
+
+/-- hence the heap theorems carry over to the pointer-level heap: after every
+history the free list READ FROM MEMORY (`__flp`, `nx`, `sz` words) is strictly
+address ordered and fully coalesced, never reaches the break, its chunks and the
+live chunks (sizes read from their `sz` words) tile `[start, brk)` without overlap,
+and with no live block the pointer-level break is 0 and `__flp` is NULL -/
+theorem heap_ptr_inv (cfg : Cfg) (ok : CfgOK cfg) (ops : List Op) (h : Heap)
+    (hrun : run cfg Heap.init ops = some h) :
+    let ph := runP cfg PHeap.init ops
+    let fl := walkFl ph (ph.brk + 1)
+    let lv := h.live.map (fun c => (c.1, ph.szf c.1))
+    fl.Pairwise (fun c d => c.1 + 8 + c.2 < d.1) ∧ (∀ f ∈ fl, f.1 + 8 + f.2 ≠ ph.brk) ∧
+    (fl ++ lv).Pairwise Disj ∧
+    (∀ x, x < ph.brk → ∃ c ∈ fl ++ lv, c.1 ≤ x ∧ x < c.1 + 8 + c.2) ∧
+    (∀ c ∈ fl ++ lv, c.1 + 8 + c.2 ≤ ph.brk) ∧ (cfg.lim ≠ 0 → ph.brk ≤ cfg.lim) ∧
+    (h.live = [] → ph.brk = 0 ∧ ph.flp = none) := by
+  intro ph fl lv
+  have hrep := runP_refines cfg ok ops h hrun
+  have hfl : fl = h.flp := runP_walkFl cfg ok ops h hrun
+  have hlv : lv = h.live := by
+    show h.live.map (fun c => (c.1, ph.szf c.1)) = h.live
+    have : ∀ c ∈ h.live, (fun c : Chunk => (c.1, ph.szf c.1)) c = c := fun c hc => by
+      have h2 : ph.szf c.1 = c.2 := hrep.2.2 c hc
+      show (c.1, ph.szf c.1) = c
+      rw [h2]
+    rw [List.map_congr_left this, List.map_id']
+  have hb : ph.brk = h.brk := hrep.1
+  have hok := heap_inv cfg ok ops h hrun
+  rw [hfl, hlv, hb]
+  refine ⟨hok.ordered, hok.notTop, hok.disjoint, hok.covered, hok.inside, hok.limit, fun hl => ?_⟩
+  have := heap_returns_to_start cfg ok ops h hrun hl
+  refine ⟨this.1, ?_⟩
+  have hc := hrep.2.1
+  rw [this.2] at hc
+  exact hc
+
+example : ∃ h, run ⟨64, 0⟩ Heap.init [.malloc 1, .malloc 64, .malloc 9, .free (some 80)] = some h ∧
+    walkFl (runP ⟨64, 0⟩ PHeap.init [.malloc 1, .malloc 64, .malloc 9, .free (some 80)]) 217 = [(72, 64)] :=
+  ⟨_, rfl, by decide⟩
 
 /-! non-vacuity of the multi-zone hypotheses -/
 
